@@ -105,6 +105,8 @@ func c10RedefScenarios() []c10RedefParams {
 type c10FollowSubParams struct {
 	Name  string `json:"name"`
 	Nchan int    `json:"nchan"`
+	// Big: the write is a LineString of ~100 kB (the replication stream carries it in many pieces)
+	Big bool `json:"big,omitempty"`
 }
 
 func c10FollowSubRun(job *Job, p c10FollowSubParams, prefix []int) (out schedOut) {
@@ -134,7 +136,20 @@ func c10FollowSubRun(job *Job, p c10FollowSubParams, prefix []int) (out schedOut
 		recvPayloads(fs)
 		w1 := x.Dial(L.Addr)
 		vsched.Quiesce()
-		w1.c.Inject(respCmd("SET", "k", "o0", "POINT", "1", "1"))
+		if p.Big {
+			var sb strings.Builder
+			sb.WriteString(`{"type":"LineString","coordinates":[`)
+			for i := 0; i < 4000; i++ {
+				if i > 0 {
+					sb.WriteByte(',')
+				}
+				fmt.Fprintf(&sb, "[1.%06d,1.%06d]", i, i)
+			}
+			sb.WriteString("]}")
+			w1.c.Inject(respCmd("SET", "k", "o0", "OBJECT", sb.String()))
+		} else {
+			w1.c.Inject(respCmd("SET", "k", "o0", "POINT", "1", "1"))
+		}
 		vsched.Prefix = prefix
 		vsched.Exploring = true
 		done := vsched.WaitUntilOr(func() bool { return countReplies(w1) >= 1 }, int64(30*stdtime.Second))
@@ -164,6 +179,11 @@ func c10FollowSubRun(job *Job, p c10FollowSubParams, prefix []int) (out schedOut
 		}
 		la, fa := key(recvPayloads(ls)), key(recvPayloads(fs))
 		out.Obs = fmt.Sprintf("leader=%d follower=%d", len(la), len(fa))
+		if !followerCaughtUp(fc) || strings.Contains(string(vsched.LastLog), "Protocol error") {
+			out.VSig = "C10/follower-link-broken-by-forwarded-messages:" + p.Name
+			out.VDetail = fmt.Sprintf("after one SET on the leader (firing %d channels) the follower is not caught up / logged a protocol error: %s", p.Nchan, vclip(string(vsched.LastLog), 300))
+			return
+		}
 		if len(la) == 0 {
 			out.Err = "the subscriber on the leader received nothing"
 			return
